@@ -45,7 +45,7 @@ KILL_KINDS = {"killc": "CloseCircuit", "killd": "DisableSimulator"}
 
 
 def _consts(c):
-    return 'NA = %(NA)d NS = %(NS)d NH = %(NH)d Dyn = %(Dyn)s NG = %(NG)d Tcp = %(Tcp)s GMode = "%(GMode)s"' % c
+    return 'NA = %(NA)d NS = %(NS)d NH = %(NH)d Dyn = %(Dyn)s NG = %(NG)d Tcp = %(Tcp)s Flt = %(Flt)s GMode = "%(GMode)s"' % c
 
 
 # ----------------------------------------------------------------------------------------
@@ -1367,7 +1367,7 @@ def _b2(chk: Check, n_walks, length, label, churn=()):
     res = [x for part in common.parallel_map(_walk_chunk, common.chunked(args, common.NCPU)) for x in part]
     chk.notes.append("B2 %s: %d walks recorded in %.1fs" % (label, n_walks, time.time() - t0))
     traces = [r[0] for r in res]
-    cfg = ("SPECIFICATION TraceSpec\nCONSTANTS NA = %d NS = %d NH = %d Dyn = TRUE NG = 2 Tcp = TRUE GMode = \"any0\"\nPOSTCONDITION TraceAccepted\n"
+    cfg = ("SPECIFICATION TraceSpec\nCONSTANTS NA = %d NS = %d NH = %d Dyn = TRUE NG = 2 Tcp = TRUE Flt = TRUE GMode = \"any0\"\nPOSTCONDITION TraceAccepted\n"
            "CHECK_DEADLOCK FALSE\n" % (NA, NS, NH))
     acc, rej, results = common.validate_traces("UdpProxy_Trace", cfg, traces, chk.scratch,
                                                shards=4 if chk.tier == "quick" else common.NCPU)
@@ -1479,24 +1479,24 @@ def run(chk: Check):
     chk.cov["pool"] = {"reactive_message_types": _POOL.n_reactive, "templates": _POOL.n_templates, "valid_out": len(_POOL.msgs["C"]), "valid_in": len(_POOL.msgs["H"]),
                        "banned": len(_POOL.banned["H"]), "excluded": _POOL.excluded[:20]}
     if quick:
-        _b1(chk, dict(NA=2, NS=2, NH=2, Dyn="TRUE", NG=2, Tcp="FALSE", GMode="addr"), "2x2x2", layouts="alternate")
-        _b1(chk, dict(NA=1, NS=1, NH=3, Dyn="TRUE", NG=2, Tcp="FALSE", GMode="any"), "1x1x3-2handles", layouts="alternate")
-        _b1(chk, dict(NA=2, NS=2, NH=1, Dyn="TRUE", NG=1, Tcp="TRUE", GMode="addr"), "2x2x1-control", layouts="alternate")
-        _b1(chk, dict(NA=1, NS=1, NH=2, Dyn="TRUE", NG=1, Tcp="FALSE", GMode="any0"), "1x1x2-nohandle")
-        _b2(chk, 48, 120, "rand", churn=[150, 300, 300, 450])
+        _b1(chk, dict(NA=2, NS=2, NH=2, Dyn="TRUE", NG=2, Tcp="FALSE", Flt="FALSE", GMode="addr"), "2x2x2", layouts="alternate")
+        _b1(chk, dict(NA=1, NS=1, NH=3, Dyn="TRUE", NG=2, Tcp="FALSE", Flt="FALSE", GMode="any"), "1x1x3-2handles", layouts="alternate")
+        _b1(chk, dict(NA=2, NS=2, NH=1, Dyn="TRUE", NG=1, Tcp="TRUE", Flt="TRUE", GMode="addr"), "2x2x1-control", layouts="alternate")
+        _b1(chk, dict(NA=1, NS=1, NH=2, Dyn="TRUE", NG=1, Tcp="FALSE", Flt="TRUE", GMode="any0"), "1x1x2-nohandle")
+        _b2(chk, 40, 120, "rand", churn=[150, 300, 450])
     else:
-        _b1(chk, dict(NA=2, NS=2, NH=2, Dyn="TRUE", NG=2, Tcp="FALSE", GMode="addr"), "2x2x2")
-        _b1(chk, dict(NA=1, NS=1, NH=3, Dyn="TRUE", NG=2, Tcp="FALSE", GMode="any0"), "1x1x3-2handles")
-        _b1(chk, dict(NA=2, NS=2, NH=1, Dyn="TRUE", NG=1, Tcp="TRUE", GMode="addr"), "2x2x1-control")
-        _b1(chk, dict(NA=1, NS=1, NH=2, Dyn="TRUE", NG=1, Tcp="FALSE", GMode="any0"), "1x1x2-nohandle")
-        _b1(chk, dict(NA=2, NS=2, NH=2, Dyn="FALSE", NG=2, Tcp="TRUE", GMode="addr"), "2x2x2-control", layouts="alternate")
+        _b1(chk, dict(NA=2, NS=2, NH=2, Dyn="TRUE", NG=2, Tcp="FALSE", Flt="TRUE", GMode="addr"), "2x2x2")
+        _b1(chk, dict(NA=1, NS=1, NH=3, Dyn="TRUE", NG=2, Tcp="FALSE", Flt="TRUE", GMode="any0"), "1x1x3-2handles")
+        _b1(chk, dict(NA=2, NS=2, NH=1, Dyn="TRUE", NG=1, Tcp="TRUE", Flt="TRUE", GMode="addr"), "2x2x1-control")
+        _b1(chk, dict(NA=1, NS=1, NH=2, Dyn="TRUE", NG=1, Tcp="FALSE", Flt="TRUE", GMode="any0"), "1x1x2-nohandle")
+        _b1(chk, dict(NA=2, NS=2, NH=2, Dyn="FALSE", NG=2, Tcp="TRUE", Flt="TRUE", GMode="addr"), "2x2x2-control", layouts="alternate")
         # (2 sessions x 2 handles x 2 addresses, GMode "any", is 6417 states / 1.3M edges: checked by hand, green,
         #  too slow for the 15 minute budget on a loaded machine; B2 walks mix 2 sessions and 2 handles at random)
         # three addresses: two viewers on one session's regions, one viewer and two sessions sharing them
         # (2 viewers x 2 sessions x 3 addresses is 5593 states / 1.6M edges: green whenever run by hand, but
         #  8 minutes on a loaded machine, more than the 15 minute budget allows next to the models above)
-        _b1(chk, dict(NA=2, NS=1, NH=3, Dyn="TRUE", NG=3, Tcp="FALSE", GMode="addr"), "2x1x3")
-        _b1(chk, dict(NA=1, NS=2, NH=3, Dyn="TRUE", NG=3, Tcp="FALSE", GMode="addr"), "1x2x3")
+        _b1(chk, dict(NA=2, NS=1, NH=3, Dyn="TRUE", NG=3, Tcp="FALSE", Flt="TRUE", GMode="addr"), "2x1x3")
+        _b1(chk, dict(NA=1, NS=2, NH=3, Dyn="TRUE", NG=3, Tcp="FALSE", Flt="TRUE", GMode="addr"), "1x2x3")
         _b2(chk, 640, 160, "rand", churn=[100, 200, 300, 400, 600, 800] * 6 + [1500, 2500, 4200, 4200])
     chk.cov["exhaustive"] = True
 
